@@ -106,7 +106,7 @@ class Parser:
         (b"bracket_comment", rb"/\*[\s\S]*?\*/"),
         (
             b"multiline",
-            rb"text:[ \t]*(?:#[^\n]*)?\r?\n(?:[^\n]*\n)*?\.(?=\r?\n|\Z)",
+            rb"(?i:text:)[ \t]*(?:#[^\n]*)?\r?\n(?:[^\n]*\n)*?\.(?=\r?\n|\Z)",
         ),
         (b"string", rb'"([^"\\]|\\.)*"'),
         (b"identifier", rb"[a-zA-Z_][\w]*"),
